@@ -421,3 +421,7 @@ WSTEP = {"name": "step.window", "files": [G + "c04_step.go"] + MUX, "fn": "Verif
          "reach": ["rotated", "evicted", "end"], "budget_quick": 900, "budget_thorough": 7200, "qtimeout": 60000}
 for pid in ("C03", "C04", "C05", "C18"):
     CHECKS[pid]["runs"] = CHECKS[pid]["runs"] + [WSTEP]
+
+# cheap lemma / step harnesses first: the driver stops at the first run with a confirmed violation
+for _pid in CHECKS:
+    CHECKS[_pid]["runs"] = sorted(CHECKS[_pid]["runs"], key=lambda r: 0 if r["name"].split(".")[0] in ("lemma", "step") else 1)
